@@ -311,7 +311,8 @@ def rule_formulas(repo: Repo, rep: Report) -> int:
     rep.floor("BCH t definitions", len(a), 1)
     md = repo.method(ci, "minimum_distance")
     r = returns_of(md.node)
-    rep.shape(len(r) == 1 and unparse(r[0].value) in ("self._delta", "self.delta"), len(r) == 1 and (isinstance(r[0].value, (ast.BinOp, ast.Constant)) or (isinstance(r[0].value, ast.Attribute) and "delta" not in r[0].value.attr)), "FORMULA", md, f"BCH advertised distance: {unparse(r[0].value) if r else '?'}", "the design distance (BCH bound: true d >= delta)", "BCH advertises something other than its design distance")
+    uses_parent = len(r) == 1 and any(isinstance(x, ast.Call) and unparse(x.func) in ("super().minimum_distance", "CyclicCodeEncoder.minimum_distance") for x in ast.walk(r[0].value))
+    rep.shape(len(r) == 1 and unparse(r[0].value) in ("self._delta", "self.delta"), len(r) == 1 and (uses_parent or isinstance(r[0].value, (ast.BinOp, ast.Constant)) or (isinstance(r[0].value, ast.Attribute) and "delta" not in r[0].value.attr)), "FORMULA", md, f"BCH advertised distance: {unparse(r[0].value) if r else '?'}", "the design distance (BCH bound: true d >= delta)", "BCH advertises something other than its design distance" + (": the parent's value is the weight of the generator polynomial for k > 12 - an UPPER bound on the distance - so e.g. BCH(31,21) reports 7 where the true distance is 5" if uses_parent else ""))
     n += 1
     gp = repo.func(BCH, "compute_bch_generator_polynomial")
     loops = [s_ for s_ in stmts_of(gp.body) if isinstance(s_, ast.For)]
@@ -319,7 +320,40 @@ def rule_formulas(repo: Repo, rep: Report) -> int:
     root_loops = [l for l in loops if any("minimal_polynomial()" in unparse(x) for x in l.body)]
     lcm_ok = "generator_poly = generator_poly.lcm(poly)" in body
     ok = len(root_loops) == 1 and unparse(root_loops[0].iter) == "range(1, delta)" and lcm_ok and any(b in ("minimal_poly = (alpha ** i).minimal_polynomial()", "poly = (alpha ** i).minimal_polynomial()") for b in body) and "alpha = field.primitive_element()" in body
-    if len(root_loops) == 1 and unparse(root_loops[0].iter) != "range(1, delta)" and "delta" in unparse(root_loops[0].iter):
+    roots_verdict = None
+    if not ok and len(root_loops) == 1 and isinstance(root_loops[0].target, ast.Name) and any(f"alpha ** {root_loops[0].target.id}" in unparse(x) for x in root_loops[0].body):
+        # unlisted enumeration of the roots: the exponents visited (closed under conjugation, i.e. under doubling mod
+        # 2^mu - 1) must contain 1 .. delta-1 for every design distance - evaluated for mu = 3..6 and every delta
+        local = {}
+        for s_ in stmts_of(gp.body):
+            if isinstance(s_, ast.Assign) and len(s_.targets) == 1 and isinstance(s_.targets[0], ast.Name):
+                local.setdefault(s_.targets[0].id, []).append(s_.value)
+        local = {k_: v_[0] for k_, v_ in local.items() if len(v_) == 1 and k_ not in ("delta", "mu")}
+        bad_ = None
+        try:
+            for mu_ in (3, 4, 5, 6):
+                nn_ = 2**mu_ - 1
+                for d_ in range(2, nn_ + 1):
+                    names_ = dict(local)
+                    names_.update({"delta": d_, "mu": mu_})
+                    visited = Folder(names_).fold(root_loops[0].iter)
+                    if not isinstance(visited, list) or not all(isinstance(t_, int) for t_ in visited):
+                        raise Unfoldable("loop range")
+                    closure = set()
+                    for t_ in visited:
+                        closure |= set(gf2.cyclotomic_coset(t_ % nn_, nn_))
+                    missing = [j_ for j_ in range(1, d_) if j_ % nn_ not in closure]
+                    if missing and bad_ is None:
+                        bad_ = (mu_, d_, list(visited)[:6], missing[:4])
+            roots_verdict = bad_
+        except Unfoldable:
+            roots_verdict = "unfoldable"
+    if roots_verdict not in (None, "unfoldable"):
+        mu_, d_, vis_, miss_ = roots_verdict
+        rep.violation("FORMULA", gp, f"BCH roots: for {unparse(root_loops[0].target)} in {unparse(root_loops[0].iter)}", f"for mu = {mu_}, delta = {d_} the loop visits the exponents {vis_}: alpha^{miss_[0]} (and its conjugates) is not a root of the generator, so the code does not have the delta - 1 consecutive roots of the BCH bound and its true distance is below the advertised one (delta = 2 gives g = 1, the whole space)", node=root_loops[0])
+    elif roots_verdict is None and not ok and len(root_loops) == 1 and isinstance(root_loops[0].target, ast.Name) and any(f"alpha ** {root_loops[0].target.id}" in unparse(x) for x in root_loops[0].body) and any("lcm(" in unparse(x) for x in ast.walk(gp.node) if isinstance(x, ast.Call)):
+        rep.ok("FORMULA", gp, f"BCH roots: for {unparse(root_loops[0].target)} in {unparse(root_loops[0].iter)} (lcm of minimal polynomials)", "unlisted enumeration; with conjugates it contains alpha^1 .. alpha^(delta-1) for mu = 3..6 and every delta")
+    elif len(root_loops) == 1 and unparse(root_loops[0].iter) != "range(1, delta)" and "delta" in unparse(root_loops[0].iter):
         rep.violation("FORMULA", gp, f"BCH roots: for i in {unparse(root_loops[0].iter)}", "the generator must have the delta-1 consecutive roots alpha^1 .. alpha^(delta-1)")
     else:
         rep.expect(ok, "FORMULA", gp, "BCH generator = lcm of the minimal polynomials of alpha^i, i in range(1, delta)", "delta-1 consecutive roots: BCH bound d >= delta", "generator polynomial construction changed")
